@@ -98,6 +98,16 @@ def fix_aspect(mesh):
                 mesh.refine_space(e)
 
 
+def grade_in_time(mesh, rounds):
+    """`rounds` bisections in time of every leaf that starts at t = 0 (thin slabs next to t = 0 all around the curve, aspect kept
+    <= 32): short elapsed times between elements that are neighbours through the closing seam"""
+    for _ in range(rounds):
+        for e in [e for e in mesh.leaf_elements if e.time_interval[0] == 0]:
+            if not e.children:
+                mesh.refine_time(e)
+        fix_aspect(mesh)
+
+
 def refine_random(mesh, hseed, steps, uniform=0, p_space=0.55, max_leaves=None):
     """`uniform` uniform refinements, then `steps` seeded random bisections (time bisections only where the child keeps
     h_x^2/h_t <= 32; closure refinements that break the aspect are repaired by space bisections)"""
@@ -692,13 +702,15 @@ def driver_state(problem, domain, pw, mesh_spec, Phi=None, drv=None):
     solve); with Phi given: everything except assemble/solve, and builds the residual function. Returns the namespace."""
     import numpy as np
     drv = drv or DriverCode()
-    hseed, steps, uniform, p_space, max_leaves = mesh_spec
+    hseed, steps, uniform, p_space, max_leaves = mesh_spec[:5]
+    tgrade = mesh_spec[5] if len(mesh_spec) > 5 else 0
     ns = {"__name__": "example_driver_extract", "args": _driver_args(problem, domain, pw), "cache_dir": None}
     with quiet():
         if drv.ok:
             drv.run(ns, drv.imports)
             drv.run(ns, drv.mesh_stmts)
             refine_random(ns["mesh"], hseed, steps, uniform, p_space, max_leaves)
+            grade_in_time(ns["mesh"], tgrade)
             drv.run(ns, drv.ops_stmts)
             if Phi is None:
                 drv.run(ns, drv.solve_stmts)
@@ -717,9 +729,10 @@ def _mirror_driver(ns, problem, domain, pw, mesh_spec, Phi):
     from src.error_estimator import ErrorEstimator
     from src.initial_potential import InitialOperator
     from src.single_layer import SingleLayerOperator
-    hseed, steps, uniform, p_space, max_leaves = mesh_spec
+    hseed, steps, uniform, p_space, max_leaves = mesh_spec[:5]
     mesh = new_mesh(domain)
     refine_random(mesh, hseed, steps, uniform, p_space, max_leaves)
+    grade_in_time(mesh, mesh_spec[5] if len(mesh_spec) > 5 else 0)
     data = problem_helper(problem, domain)
     SL = SingleLayerOperator(mesh, pw_exact=bool(pw), cache_dir=None)
     if "u0" in data:
@@ -843,6 +856,10 @@ def run_c03(chk, tier, seed, only=None):
             if only and only != "{}_{}".format(problem, domain) and only != "{}_{}/pw={}".format(problem, domain, pw):
                 continue
             combos.append((problem, domain, pw, c03_mesh_spec(tier, seed, 2 * k + int(pw))))
+    if tier == "thorough" and not only:
+        # meshes graded towards t = 0 (6 slabs down to 1/32) on the curves with the longest parameter length
+        combos.append(("Dirichlet", "PiSquare", False, (104729 * seed + 7, 0, 0, 0.5, 200, 5)))
+        combos.append(("MildSingular", "LShape", True, (104729 * seed + 8, 0, 0, 0.5, 200, 6)))
     _G.clear()
     _G.update(combos=combos, drv=drv)
     t_solve = time.time()
